@@ -87,5 +87,6 @@ def to_json(g, b, bid):
     prog = g.prog[b["init"]]
     steps = [g.lbl[n] for n in b["nodes"][1:]]
     last = b["nodes"][-1]
-    end = "done" if last in g.done else ("deadlock" if not g.succ.get(last) else "cut")
+    end = "done" if last in g.done else ("clients" if last in g.cdone else
+                                         ("deadlock" if not g.succ.get(last) else "cut"))
     return {"id": bid, "prog": prog, "steps": steps, "end": end}
